@@ -303,6 +303,17 @@ def check_walk(ctx, F):
             else:
                 bad = bad or "walk step is `if (%s) {%s} else return %s`, expected `if (cursor >= utilities[i]) cursor -= utilities[i]; else return i`" % (
                     txt, then_txt, else_ret)
+        # whatever is returned has passed the rank filter: `return i` and every update of a fallback local that is returned after the loop lie
+        # inside the filtered branch (otherwise a lower-ranked sub-state can be chosen when the cursor overshoots)
+        if rank_if is not None:
+            inside = set(id(y) for y in walk(rank_if[0]["t"]))
+            post = [strip(y["e"]) for y in walk(b["body"]) if y.get("k") == "ret" and y.get("e") and id(y) not in set(id(z) for z in walk(loop))]
+            fallback = {e.get("n") for e in post if e.get("k") == "var" and e.get("d") == "local"}
+            for y in walk(loop["b"]):
+                if y.get("k") == "ret" and id(y) not in inside:
+                    bad = bad or "a `return` inside the loop is not under the rank filter"
+                if y.get("k") == "asg" and strip(y["lhs"]).get("k") == "var" and strip(y["lhs"]).get("n") in fallback and id(y) not in inside:
+                    bad = bad or "the fallback `%s` (returned when the cursor overshoots) is updated outside the rank filter: it can name a sub-state of lower rank" % strip(y["lhs"]).get("n")
         # cursor = random * sum with random = rng.next()
         defs = {}
         for y in walk(b["body"]):
